@@ -16,7 +16,7 @@ Streams:
     seen by the next);
   * dotted-class abbreviations `.x>.y+.z` over the alphabet of harness/c07_markup's BEM sweep;
   * re.I code points: U+0130 U+0131 U+017F U+212A and other non-ASCII letters/digits in every regex position;
-  * fields / numbering / repeaters / snippets / implicit names / lorem-free mixes under random BEM configurations.
+  * fields / numbering / repeaters / snippets / implicit names / lorem mixes under random BEM configurations.
 """
 import itertools
 
@@ -148,8 +148,15 @@ def run_bem(ctx, model, cases=None, label='bem'):
         cases = gen_cases(ctx)
     cfg_enc = {}
     wires, kept = [], []
+    from lorem_oracle import lorem_like, model_draws
     for abbr, cfg, tag in cases:
-        if 'lorem' in abbr.lower():
+        if lorem_like(abbr, cfg):
+            # lorem text: the implementation runs under the oracle of the case, the model gets the same draws
+            try:
+                wires.append([2] + enc_config(cfg, model_draws(abbr, cfg)) + enc_str(abbr))
+                kept.append((abbr, cfg, tag))
+            except NotModelled:
+                ctx.cover('bem:not-modelled')
             continue
         k = canon_cfg(cfg)
         if k not in cfg_enc:
